@@ -152,7 +152,7 @@ func exec(t *testing.T, p *Prop, tape *sim.Tape, trace bool, known []Known) (r *
 					msg := fmt.Sprint(rec)
 					if strings.Contains(msg, "blocked goroutines remain") || strings.Contains(msg, "deadlock") {
 						r.Probe("bubble_teardown_leak")
-						if v == nil && strings.Contains(msg, "deadlock") {
+						if v == nil && strings.Contains(msg, "all goroutines in bubble are blocked") {
 							v = &sim.Violation{Prop: p.ID, Clause: "deadlock", Signature: "all goroutines blocked", Detail: msg}
 						}
 						return
